@@ -201,7 +201,36 @@ type jobResult struct {
 // RunJob explores one shard of one scenario in this process and writes the result file.
 func RunJob(id, tier string, specIdx, shard, shards, slot int, raceLog, out string, deadlineUnix int64) {
 	world.Init()
-	sp := Registry[id].Scenarios(tier)[specIdx]
+	runOneJob(id, tier, Registry[id].Scenarios(tier)[specIdx], shard, shards, slot, raceLog, out, deadlineUnix)
+}
+
+// JobItem is one (scenario, shard) of a worker's list.
+type JobItem struct {
+	Spec   int    `json:"spec"`
+	Shard  int    `json:"shard"`
+	Shards int    `json:"shards"`
+	Out    string `json:"out"`
+}
+
+// RunJobs runs a list of small jobs in one process: building the scenario list costs about as much as exploring a
+// small scenario, and the thorough tiers have thousands of them.
+func RunJobs(id, tier string, listFile string, slot int, raceLog string, deadlineUnix int64) {
+	world.Init()
+	b, err := os.ReadFile(listFile)
+	if err != nil {
+		panic(err)
+	}
+	var items []JobItem
+	if err := json.Unmarshal(b, &items); err != nil {
+		panic(err)
+	}
+	specs := Registry[id].Scenarios(tier)
+	for _, it := range items {
+		runOneJob(id, tier, specs[it.Spec], it.Shard, it.Shards, slot, raceLog, it.Out, deadlineUnix)
+	}
+}
+
+func runOneJob(id, tier string, sp Spec, shard, shards, slot int, raceLog, out string, deadlineUnix int64) {
 	p := run.NewPart(id, "job", tier)
 	opt := sched.Options{Bound: sp.Bound, HBCache: sp.HBCache, DevBound: sp.DevBound, MaxExec: sp.MaxExec, Deadline: run.NewDeadlineAt(deadlineUnix), RaceLog: raceLog, Property: id, Shard: shard, Shards: shards, Slot: slot}
 	if raceLog != "" {
@@ -301,29 +330,86 @@ func RunCheck(p *run.Part, id, tier string, raceLog string, journalDir string) {
 			jobs = append(jobs, job{i, s, n, filepath.Join(tmp, fmt.Sprintf("job-%d-%d.json", i, s))})
 		}
 	}
-	deadline := Budget(tier).Unix()
+	deadlineAt := Budget(tier)
+	deadline := deadlineAt.Unix()
+	// unsharded scenarios are handed to workers in lists (a worker builds the scenario list once); sharded ones
+	// (the large ones) get a process per shard
+	var groups [][]job
+	small := 0
+	for _, jb := range jobs {
+		if jb.shards == 1 {
+			small++
+		}
+	}
+	per := (small + 63) / 64
+	if per > 32 {
+		per = 32
+	}
+	if per < 1 {
+		per = 1
+	}
+	var cur []job
+	for _, jb := range jobs {
+		if jb.shards != 1 {
+			groups = append(groups, []job{jb})
+			continue
+		}
+		cur = append(cur, jb)
+		if len(cur) == per {
+			groups = append(groups, cur)
+			cur = nil
+		}
+	}
+	if len(cur) > 0 {
+		groups = append(groups, cur)
+	}
 	sem := make(chan bool, 16)
-	done := make(chan int, len(jobs))
-	died := make([]string, len(jobs))
-	for k, jb := range jobs {
+	done := make(chan int, len(groups))
+	died := make([]string, len(groups))
+	notStarted := 0
+	for k, g := range groups {
 		sem <- true
-		go func(k int, jb job) {
+		if deadlineAt.Expired() {
+			// the budget of this part is used up: the remaining scenarios are reported as not explored
+			<-sem
+			done <- k
+			notStarted += len(g)
+			for _, jb := range g {
+				st := sched.Stats{Outcomes: map[string]int{}, Exhaustive: false, Mode: "not started (deadline)"}
+				b, _ := json.Marshal(jobResult{Scenario: specs[jb.spec].Sc.Name + specs[jb.spec].Name, Shard: jb.shard, Stats: st})
+				os.WriteFile(jb.out, b, 0o644)
+			}
+			continue
+		}
+		go func(k int, g []job) {
 			defer func() { <-sem; done <- k }()
-			cmd := exec.Command(self, "job", id, tier, fmt.Sprint(jb.spec), fmt.Sprint(jb.shard), fmt.Sprint(jb.shards), jb.out, journalDir, fmt.Sprint(k), fmt.Sprint(deadline))
+			var items []JobItem
+			for _, jb := range g {
+				items = append(items, JobItem{jb.spec, jb.shard, jb.shards, jb.out})
+			}
+			lf := filepath.Join(tmp, fmt.Sprintf("list-%d.json", k))
+			lb, _ := json.Marshal(items)
+			if err := os.WriteFile(lf, lb, 0o644); err != nil {
+				panic(err)
+			}
+			cmd := exec.Command(self, "jobs", id, tier, lf, journalDir, fmt.Sprint(k), fmt.Sprint(deadline))
 			cmd.Env = os.Environ()
 			if raceLog != "" {
 				cmd.Env = append(cmd.Env, fmt.Sprintf("GORACE=halt_on_error=0 exitcode=0 log_path=%s-job%d", raceLog, k))
 			}
 			outb, err := cmd.CombinedOutput()
 			if err != nil {
-				died[k] = fmt.Sprintf("job %s%s shard %d: %v\n%s", specs[jb.spec].Sc.Name, specs[jb.spec].Name, jb.shard, err, tail(string(outb), 6000))
+				died[k] = fmt.Sprintf("worker %d (%s%s shard %d ... %d jobs): %v\n%s", k, specs[g[0].spec].Sc.Name, specs[g[0].spec].Name, g[0].shard, len(g), err, tail(string(outb), 6000))
 			}
-		}(k, jb)
+		}(k, g)
 	}
-	for range jobs {
+	for range groups {
 		<-done
 	}
-	for k := range jobs {
+	if notStarted > 0 {
+		p.Inexhaustive(fmt.Sprintf("%d scenario shards were not started: the budget of this part was used up", notStarted))
+	}
+	for k := range groups {
 		if died[k] != "" {
 			fmt.Fprintln(os.Stderr, died[k])
 			if strings.Contains(died[k], "exit status 3") {
